@@ -140,7 +140,19 @@ where
     if cost_to_free == 0 {
       return (Vec::new(), 0);
     }
-    self.state.lock().main.evict_items(cost_to_free, self.main_prot_capacity)
+    let mut state = self.state.lock();
+    let (mut victims, mut freed) = state.main.evict_items(cost_to_free, self.main_prot_capacity);
+    // Main segment exhausted: fall back to the admission window, least recently used first.
+    while freed < cost_to_free {
+      match state.window.pop_back() {
+        Some((key, cost)) => {
+          freed += cost;
+          victims.push(key);
+        }
+        None => break,
+      }
+    }
+    (victims, freed)
   }
 
   fn clear(&self) {
